@@ -334,3 +334,71 @@ Example C10_built_computes :
   | _ => None end
   = Some (Some (Some "m.A"), Some ["m.A"; "m.B"; "z.N"], true).
 Proof. vm_compute. reflexivity. Qed.
+
+(* ================================================================================================================
+   XML loading (coq/C10Load.v, C10LoadProofs.v on C12's model Descr.v / DescrTS.v of TypeSystemDeserializer).  The property
+   quantifies over type systems "obtained by any sequence of type creation, XML loading ... and merging": `obtained` is
+   that closure in the model — `built` above plus load_typesystem of any well-formed descriptor (distinct named types,
+   declared or built-in supertypes / ranges / element types, no feature declared again along a chain, no type below a final
+   array type; any document order, any creation order the toposort contract admits), a loaded type system being extended,
+   merged and merged again like any other.  Type names may be dot-free and share their short name with other types.
+   Every obtained type system satisfies WFh, so every query theorem above holds of it.  (JSON-embedded type systems: C02.)
+   The "xml" sub-suite of the check (CorrC10xml.v) evaluates load_ts + a history on the model and on live objects and runs
+   the whole query battery on the result. *)
+From Cassis Require Descr DescrTS.
+From Cassis Require Import C10Load C10LoadProofs.
+
+Theorem C10_obtained_WF : forall ts, obtained ts -> WFh ts.
+Proof. exact obtained_WFh. Qed.
+Print Assumptions C10_obtained_WF.
+
+(* the closure under histories and merging is part of it *)
+Theorem C10_built_is_obtained : forall ts, built ts -> obtained ts.
+Proof. exact built_obtained. Qed.
+Print Assumptions C10_built_is_obtained.
+
+(* a well-formed descriptor loads, under every admissible creation order, to a type system satisfying the invariant, and so
+   does every history continued from it *)
+Theorem C10_loaded_WF : forall order d, loadable order d = true ->
+  exists ts, load_ts order d = Ok ts /\ WFh ts /\ forall ops, WFh (final_ts ops ts).
+Proof.
+  intros order d H. destruct (load_total order d H) as [ts L]. exists ts.
+  split; [exact L|]. split; [exact (load_WFh order d ts H L)|].
+  intros ops. apply run_WFh. exact (load_WFh order d ts H L).
+Qed.
+Print Assumptions C10_loaded_WF.
+
+Theorem C10_obtained_descendants_spec : forall ts a, obtained ts -> In a ts ->
+  exists l, descendants (desc_fuel ts) ts (t_name a) = Some l /\ NoDup l /\ forall d, In d l <-> below ts (t_name a) d.
+Proof. exact obtained_descendants. Qed.
+Print Assumptions C10_obtained_descendants_spec.
+
+Theorem C10_obtained_refs_registered : forall ts t, obtained ts -> In t ts ->
+  find_ty ts (t_name t) = Some t /\
+  (forall s, t_super t = Some s -> registered ts s = true) /\
+  (forall c, In c (t_children t) -> registered ts c = true) /\
+  (forall f, In f (all_features t) -> feat_refs_ok ts f) /\
+  (forall f, In f (t_own t) -> f_dom f = t_name t).
+Proof. exact obtained_refs_registered. Qed.
+Print Assumptions C10_obtained_refs_registered.
+
+(* non-vacuity: the dot-free type Token declared below org.example.Token (children before parents in the document), a
+   subtype declared below the dot-free name; every name is registered, the full name 'Token' resolves to the dot-free
+   type, the short name SubToken to its only bearer, and the loaded type system extended by one more type is queried *)
+Example C10_loaded_computes :
+  let d := [Descr.mkT "org.example.SubToken" None "Token" [];
+            Descr.mkT "Token" None "org.example.Token" [Descr.mkF "lemma" None "uima.cas.String" None None];
+            Descr.mkT "org.example.Token" None "uima.tcas.Annotation" []] in
+  let order := ["uima.tcas.Annotation"; "org.example.Token"; "uima.tcas.DocumentAnnotation"; "Token"; "org.example.SubToken"] in
+  loadable order d = true /\
+  match load_ts order d with
+  | Ok ts0 =>
+    let ts := final_ts [OCreateType "q.Token" "SubToken" None] ts0 in
+    Some (option_map t_name (match get_type ts0 "Token" with Ok t => Some t | _ => None end),
+          option_map t_super (find_ty ts0 "org.example.SubToken"),
+          descendants (desc_fuel ts) ts "org.example.Token",
+          match get_type ts "Token" with Ok t => Some (t_name t) | _ => None end, wfhb ts)
+  | _ => None end
+  = Some (Some "Token", Some (Some "Token"),
+          Some ["org.example.Token"; "Token"; "org.example.SubToken"; "q.Token"], Some "Token", true).
+Proof. vm_compute. split; reflexivity. Qed.
